@@ -1,0 +1,16 @@
+// Package verifhook holds the instrumentation points used by the deterministic
+// simulation harness that lives outside this repository. With the build tag
+// "verif" off (the default) every function in this package is an empty,
+// inlinable stub and the shipped behaviour is unchanged. With the tag on, the
+// calls are forwarded to a handler that the harness installs.
+package verifhook
+
+import "io"
+
+// File is the method set of the files the AOF stores keep open.
+type File interface {
+	io.ReadWriteSeeker
+	io.Closer
+	Truncate(size int64) error
+	Sync() error
+}
